@@ -1068,7 +1068,23 @@ fn oracle_c18(rng: &mut Rng, n: usize, tier: &str) -> OracleReport {
                     rep.fail("de_br_same_atom_count", format!("bytes={} pre={:?} atoms {} vs {}, heap {} vs {}", h, pre, a1, a2, h1, h2));
                 }
             }
-            (Out::Err(_), Out::Err(_)) => {}
+            (Out::Err(_), Out::Err(_)) => {
+                // "leave identical pair counts" also when both reject (the crate's own fuzz target asserts it)
+                let count = |old: bool| -> Option<usize> {
+                    let prev: Vec<&str> = pre.iter().map(|s| s.as_str()).collect();
+                    let bb = b.clone();
+                    std::panic::catch_unwind(move || {
+                        let mut a = preload(&prev);
+                        let _ = if old { node_from_bytes_backrefs_old(&mut a, &bb) } else { node_from_bytes_backrefs(&mut a, &bb) };
+                        a.pair_count()
+                    })
+                    .ok()
+                };
+                let (c1, c2) = (count(false), count(true));
+                if c1 != c2 {
+                    rep.fail("de_br_same_pair_count_rejected", format!("bytes={} pre={:?} both reject, pair_count new={:?} old={:?}", h, pre, c1, c2));
+                }
+            }
             _ => rep.fail("de_br_same_inputs", format!("bytes={} pre={:?} new={:?} old={:?}", h, pre, newr, oldr)),
         }
         // the probe uses its own fresh allocator: compare with the decoders on a default allocator only
